@@ -20,3 +20,13 @@
                       (= (select A (c2 ao k 1)) (fp_mul (select P (c3 po k 1)) (fp_inv (select P (c3 po k 2)))))))))
          (and (validAVec A ao n) (= (gsumA A ao al S so sl n) (gsum P po pl S so sl n))))
      :pattern ((gsumA A ao al S so sl n) (gsum P po pl S so sl n)))))
+; the validity half of the bridge on its own (the same statement without the sums), triggered by the goal shape of a call
+; precondition "validAVec(affine)" when no sum term is in sight - added for robustness: with only the two-sum trigger above
+; the precondition of bandersnatch.MultiExp in Element.MultiExp was discharged by one solver configuration only
+(assert (forall ((A (Array Int Fp)) (ao Int) (P (Array Int Fp)) (po Int) (n Int))
+  (! (=> (and (>= n 0) (validVec P po n)
+              (forall ((k Int)) (=> (and (<= 0 k) (< k n))
+                 (and (= (select A (c2 ao k 0)) (fp_mul (select P (c3 po k 0)) (fp_inv (select P (c3 po k 2)))))
+                      (= (select A (c2 ao k 1)) (fp_mul (select P (c3 po k 1)) (fp_inv (select P (c3 po k 2)))))))))
+         (validAVec A ao n))
+     :pattern ((validAVec A ao n) (validVec P po n)))))
